@@ -288,7 +288,14 @@ func (w *world) stepSnap(i int) (J, J, bool) {
 			obs["err"] = errCode(err)
 			return
 		}
-		nr = newRep(src.typ, false, len(w.reps))
+		// the importing instance: every other time one that was CREATED through the client API (as
+		// server/snapshot/manager.go does) and therefore has executed an operation of its own before the import
+		created := len(w.reps)%2 == 1
+		nr = newRep(src.typ, created, len(w.reps))
+		if created {
+			nr.wired.ResetWired() // its buffered creation operation is not part of the imported history
+		}
+		obs["created"] = created
 		if err := nr.wired.SetMetaAndSnapshot(meta, snap); err != nil {
 			obs["err"] = errCode(err)
 			return
